@@ -349,8 +349,11 @@ def run(chk):
     progs = r.printed
     if len(progs) < 500:
         raise core.MachineryError('only %d programs' % len(progs))
-    ctx757 = ConnectionContext(protocol_version=757)
+    ctx_of = {'XZY': ConnectionContext(protocol_version=757), 'XYZ': ConnectionContext(protocol_version=404)}
     for i, pr in enumerate(progs):
+        ctx757 = ctx_of[pr.get('lay', 'XZY')]        # the era whose position layout the reference encoding used
+        if i % 4 == 0:
+            ctx757 = ConnectionContext(protocol_version={'XZY': 477, 'XYZ': 47}[pr.get('lay', 'XZY')])
         defn = []
         vals = {}
         for j, (ty, v) in enumerate(pr['fields']):
